@@ -1,5 +1,10 @@
 """C08 - reported statistics obey their defining formulas."""
-CONTRACT_MODULES = ['results', 'c08_lrtest', 'c08_tables']
+import os as _os
+import sys as _sys
+
+# thorough tier: get_general_statistics also on results objects with Monte-Carlo draws (several seconds per clause)
+_THOROUGH = _os.environ.get('VERIF_TIER') == 'thorough' or any(a in ('thorough', '--tier=thorough') for a in _sys.argv)
+CONTRACT_MODULES = ['results', 'c08_lrtest', 'c08_tables'] + (['c08_tables_mc'] if _THOROUGH else [])
 LEVEL = 'proof'
 TRUSTED = ['pyvc (VC generator, Python semantics of the stated subset)', 'z3 5.1.0',
            'LIBSPEC: numpy/scipy members are pure uninterpreted functions (incl. scipy.stats.chi2.ppf)',
@@ -8,7 +13,7 @@ TRUSTED = ['pyvc (VC generator, Python semantics of the stated subset)', 'z3 5.1
            'assumed contract: bioResults.number_of_free_parameters is pure (compared natively in bounded/c08_tables.py)']
 ASSUMPTIONS = ['A-REAL: floats are mathematical reals']
 EXPLANATION = ('Contracts on the real functions of results.py and tools/likelihood_ratio.py; every obligation regenerated from the current AST. '
-               'Tabular views: get_general_statistics is proved label by label; the pandas-based views (get_estimated_parameters, '
+               'Tabular views: get_general_statistics is proved label by label (results objects without Monte-Carlo draws in the quick tier, all in the thorough tier); the pandas-based views (get_estimated_parameters, '
                'get_correlation_results, get_*_var_covar, compile_estimation_results, compile_results_in_directory) and the pairwise record of '
                '_calculate_stats are decided by one static obligation per label (AST dataflow label -> quantity) and, independently, by bounded '
                'stand-ins that compare every cell of every table with the raw fields on the real code.')
@@ -33,7 +38,7 @@ elif ':_calculate_stats:' in ob:
     bad = [{'check': 'secondOrderTable', 'case': b} for b in bad]
 else:
     n, bad = c08_tables.run_views(cases=8, seed=0)
-    for key, m in (('get_estimated_parameters', 'estimated_parameters'), ('get_correlation_results', 'correlation_results'),
+    for key, m in (('get_general_statistics', 'general_statistics'), ('get_estimated_parameters', 'estimated_parameters'), ('get_correlation_results', 'correlation_results'),
                    ('get_var_covar', 'get_var_covar'), ('get_robust_var_covar', 'get_robust_var_covar'),
                    ('get_bootstrap_var_covar', 'get_bootstrap_var_covar')):
         if ':' + key + ':' in ob:
